@@ -1394,6 +1394,8 @@ impl Drop for Arena {
       //
       // Thread sanitizer does not support atomic fences. Use an atomic load
       // instead.
+      #[cfg(rarena_verif)]
+      crate::verif::teardown(self.ptr as usize, self.cap as usize);
       // Drop the data
       let mut memory = Box::from_raw(memory_ptr);
 
@@ -1401,6 +1403,41 @@ impl Drop for Arena {
       // access this memory anymore.
       memory.unmount();
     }
+  }
+}
+
+#[cfg(rarena_verif)]
+#[allow(missing_docs)]
+impl Arena {
+  /// Snapshot of header and free list.
+  pub fn verif_snapshot(&self, max_nodes: usize) -> crate::verif::Snapshot {
+    let h = self.header();
+    unsafe {
+      crate::verif::snapshot(
+        self.ptr,
+        self.cap,
+        *h.sentinel.as_inner_ref(),
+        h.allocated,
+        h.min_segment_size,
+        h.discarded,
+        max_nodes,
+      )
+    }
+  }
+
+  pub fn verif_ranges(&self) -> crate::verif::Ranges {
+    crate::verif::Ranges {
+      base: self.ptr as usize,
+      cap: self.cap as usize,
+      header: self.header() as *const _ as usize,
+      header_len: mem::size_of::<sealed::Header>(),
+      memory_box: self.inner.as_ptr() as usize,
+      memory_box_len: mem::size_of::<Memory>(),
+    }
+  }
+
+  pub fn verif_refs(&self) -> usize {
+    self.refs()
   }
 }
 
